@@ -30,7 +30,7 @@ type c02Plan struct {
 }
 
 var c02Lists = []string{"starttls-required", "starttls-optional", "starttls-absent-sasl-offered", "empty", "starttls-among-others", "unknown-only", "bind-and-sasl-only"}
-var c02Answers = []string{"proceed", "proceed", "failure", "garbage", "other-namespace", "proceed+pipelined-plaintext", "silence", "cut", "proceed-then-garbage"}
+var c02Answers = []string{"proceed", "proceed", "failure", "garbage", "other-namespace", "proceed+pipelined-plaintext", "silence", "cut", "proceed-then-garbage", "whitespace", "whitespace-then-features", "text"}
 
 type c02Outcome struct {
 	err        error
@@ -142,6 +142,19 @@ func c02Session(rc *RC, idx int, tag string, origin jid.JID, feats []xmpp.Stream
 			return
 		case "other-namespace":
 			io.WriteString(sc, `<proceed xmlns='urn:other'/>`)
+			clearHelper()
+			return
+		case "whitespace":
+			// a keep-alive is not an answer
+			io.WriteString(sc, "\r\n\t ")
+			clearHelper()
+			return
+		case "whitespace-then-features":
+			io.WriteString(sc, "\n<stream:features>"+mech+"</stream:features>")
+			clearHelper()
+			return
+		case "text":
+			io.WriteString(sc, "proceed")
 			clearHelper()
 			return
 		case "silence":
